@@ -554,6 +554,27 @@ err:
     return 0;
 }
 
+/* The context of a SCRAM exchange is owned by its _handle_scram_challenge
+ * handler, which frees it when the exchange ends. Nobody does when the
+ * connection goes down while the exchange is still pending: the generic
+ * handler code can't know what the userdata of a handler is. This is called
+ * before the system handlers of a connection are deleted.
+ */
+void auth_release_scram_ctx(xmpp_conn_t *conn)
+{
+    xmpp_handlist_t *item;
+    struct scram_user_data *scram_ctx;
+
+    for (item = conn->handlers; item; item = item->next) {
+        if (item->handler != (xmpp_void_handler)_handle_scram_challenge)
+            continue;
+        scram_ctx = (struct scram_user_data *)item->userdata;
+        strophe_free(conn->ctx, scram_ctx->channel_binding);
+        strophe_free(conn->ctx, scram_ctx->scram_init);
+        strophe_free(conn->ctx, scram_ctx);
+    }
+}
+
 static int _make_scram_init_msg(struct scram_user_data *scram)
 {
     xmpp_conn_t *conn = scram->conn;
